@@ -13,10 +13,10 @@ import (
 
 func init() {
 	register(&Prop{
-		ID: "C19",
-		Decided: "(1) Stream.dataChan is written only under dataChanMux.Lock and read under at least RLock; (2) on the expand strategy every send on the input buffer happens while the data-channel lock is held (a swap cannot strand a row): sends on a cached channel reference occur only in strategies that never expand, and expandDataChannel is called only by the expand strategy; (3) migration: the old channel is drained under the write lock, every received row is offered to the new channel, and the swap store happens under that lock after the drain; (4) in each strategy's ProcessData every path ends after exactly one of {row enqueued, input_dropped_count incremented, stop observed} and never enqueues twice; the block strategy without timeout has no drop path; (5) growth is attempted only when oldCap < MaxBufferSize and the new capacity never exceeds MaxBufferSize (when set); (6) single consumer (shared with C05) and input_count incremented before the strategy runs.",
+		ID:         "C19",
+		Decided:    "(1) Stream.dataChan is written only under dataChanMux.Lock and read under at least RLock; (2) on the expand strategy every send on the input buffer happens while the data-channel lock is held (a swap cannot strand a row): sends on a cached channel reference occur only in strategies that never expand, and expandDataChannel is called only by the expand strategy; (3) migration: the old channel is drained under the write lock, every received row is offered to the new channel, and the swap store happens under that lock after the drain; (4) in each strategy's ProcessData every path ends after exactly one of {row enqueued, input_dropped_count incremented, stop observed} and never enqueues twice; the block strategy without timeout has no drop path; (5) growth is attempted only when oldCap < MaxBufferSize and the new capacity never exceeds MaxBufferSize (when set); (6) single consumer (shared with C05) and input_count incremented before the strategy runs.",
 		NotDecided: "conservation as a count under schedules, that the send into the private larger channel cannot lose to the 5 s migration timer (the path exists in the CFG and is tolerated as 'send attempted'), consumer speed.",
-		Run: runC19,
+		Run:        runC19,
 	})
 }
 
@@ -158,20 +158,22 @@ func runC19(a *A) {
 				hit = h
 			}
 		}
-		_ = func() ssa.Instruction { return reachableAfter(swap, func(in ssa.Instruction) bool {
-			sel, ok := in.(*ssa.Select)
-			if !ok {
-				return false
-			}
-			for _, st := range sel.States {
-				if st.Dir == types.RecvOnly {
-					if t := TermOf(st.Chan, nil); t.Kind == "field" && t.Field == dc {
-						return true
+		_ = func() ssa.Instruction {
+			return reachableAfter(swap, func(in ssa.Instruction) bool {
+				sel, ok := in.(*ssa.Select)
+				if !ok {
+					return false
+				}
+				for _, st := range sel.States {
+					if st.Dir == types.RecvOnly {
+						if t := TermOf(st.Chan, nil); t.Kind == "field" && t.Field == dc {
+							return true
+						}
 					}
 				}
-			}
-			return false
-		}, nil) }
+				return false
+			}, nil)
+		}
 		a.Check(hit == nil, fname(fn)+"#swap-after-drain", swap.Pos(), "the swap happens after the drain loop", "rows are still drained after the new channel was installed")
 	})
 	a.Rule("flow/exactly-one-outcome", 3, func() {
